@@ -50,6 +50,7 @@ type CertSpec struct {
 	SelfSigned bool
 	ExtraExts  []pkix.Extension
 	RawSubject []byte                  // when set, the subject DN is exactly these bytes (a look-alike name)
+	EmptyName  bool                    // empty subject DN, critical subjectAltName
 	RawEKU     []asn1.ObjectIdentifier // when set, written as a raw EKU extension
 	RawEKUCrit bool
 }
@@ -108,6 +109,11 @@ func Issue(spec *CertSpec, parent *Cert) (*Cert, error) {
 	}
 	if len(spec.RawSubject) > 0 {
 		tmpl.RawSubject = spec.RawSubject
+	}
+	if spec.EmptyName {
+		tmpl.Subject = pkix.Name{}
+		tmpl.RawSubject = []byte{0x30, 0x00}
+		tmpl.DNSNames = []string{spec.CN + ".sim"} // crypto/x509 marks the extension critical for an empty subject
 	}
 	if !spec.NoKeyUsage {
 		tmpl.KeyUsage = spec.KeyUsage
